@@ -156,3 +156,31 @@ Proof.
   intros Hw l Hl. apply in_map_iff in Hl as (a & <- & Ha).
   specialize (Hw (intern_line str_eqb (map pl_path p) a)). apply Hw. apply in_map_iff. exists a; split; [reflexivity|assumption].
 Qed.
+
+(* ----- which fragments are analysed on their own does not depend on the spelling of the .include lines ----- *)
+
+Definition inc_denotes (cwd : str) (i : str * str) : list str := denote cwd (join_path (fst i) (snd i)).
+
+Lemma existsb_Forall2 {A} (R : A -> A -> Prop) (f : A -> bool) l l' :
+  Forall2 R l l' -> (forall a b, R a b -> f a = f b) -> existsb f l = existsb f l'.
+Proof. induction 1; simpl; intro H'; [reflexivity|]. rewrite (H' _ _ H). f_equal. apply IHForall2. exact H'. Qed.
+
+Theorem analysed_alone_spelling_independent cwd pkgdir fragdir fragbase incs incs' :
+  Forall2 (fun i j => inc_denotes cwd i = inc_denotes cwd j) incs incs' ->
+  analysed_alone cwd pkgdir fragdir fragbase incs = analysed_alone cwd pkgdir fragdir fragbase incs'.
+Proof.
+  intro H. unfold analysed_alone. f_equal. f_equal.
+  apply (existsb_Forall2 _ _ _ _ H). intros a b Hab. unfold inc_denotes in Hab.
+  apply bool_ext. rewrite !same_denotation_spec. rewrite Hab. tauto.
+Qed.
+
+(* a fragment that some .include line of the package denotes is never analysed on its own *)
+Theorem included_fragment_not_alone cwd pkgdir fragdir fragbase incs i :
+  In i incs -> inc_denotes cwd i = denote cwd (join_path fragdir fragbase) ->
+  analysed_alone cwd pkgdir fragdir fragbase incs = false.
+Proof.
+  intros Hin Hd. unfold analysed_alone.
+  assert (E : existsb (fun i0 => same_denotation cwd (join_path (fst i0) (snd i0)) (join_path fragdir fragbase)) incs = true).
+  { apply existsb_exists. exists i. split; [exact Hin|]. apply same_denotation_spec. exact Hd. }
+  rewrite E. apply Bool.andb_false_r.
+Qed.
